@@ -197,7 +197,9 @@ class Interp:
     def __init__(self, P, fn, budget=200000, max_forks=4096, inline_depth=3):
         self.P = P
         self.fn = fn
-        if not RECORD_SIZES:
+        if RECORD_SIZES.get("\0program") is not P:
+            RECORD_SIZES.clear()            # the table belongs to one program (mutant / refactored trees differ)
+            RECORD_SIZES["\0program"] = P
             for name, r in P.records.items():
                 if r.get("size"):
                     RECORD_SIZES[name] = r["size"]
